@@ -137,6 +137,10 @@ func genPublishOpts(t *rapid.T, nsess int) []KV {
 	if uni(t, 9, "f6") == 0 {
 		o = append(o, KV{"eligible_team", genStrList(t, []string{"p", "q"}, "et")})
 	}
+	if uni(t, 10, "dm") == 0 {
+		// disclosure combined with the filters (what is disclosed is C12's clause)
+		o = append(o, KV{"disclose_me", VBool(true)})
+	}
 	return o
 }
 
